@@ -30,30 +30,32 @@ func vc12Seeds(dir string, rng *vh.Rng) ([]c12h.Seed, error) {
 		}
 		back, err := FromBytes(b)
 		if err != nil {
-			return fmt.Errorf("seed %s does not load: %v", name, err)
+			c12h.SkipSeed(name, fmt.Sprintf("does not load: %v", err))
+			return nil
 		}
 		if back.capacity != idx.capacity {
-			return fmt.Errorf("seed %s: capacity mismatch", name)
+			c12h.SkipSeed(name, "capacity mismatch after loading")
+			return nil
 		}
 		seeds = append(seeds, c12h.Seed{Name: name, Data: b, Nums: []uint64{idx.start, idx.end, idx.epoch, idx.capacity}})
 		return nil
 	}
 	// small tables written by the real writer (NewIndexer takes any capacity)
 	if err := mk("cap10", NewIndexer(432000*3, 432000*3+9, 10), 10); err != nil {
-		return nil, err
+		return seeds, err
 	}
 	if err := mk("cap1", NewIndexer(0, 0, 1), 1); err != nil {
-		return nil, err
+		return seeds, err
 	}
 	if err := mk("cap40", NewIndexer(432000*700+5, 432000*700+44, 40), 40); err != nil {
-		return nil, err
+		return seeds, err
 	}
 	if err := mk("cap0", NewIndexer(432000, 432000+3, 0), 0); err != nil {
-		return nil, err
+		return seeds, err
 	}
 	// the real thing: one whole epoch (1.7 MB)
 	if err := mk("epoch", NewForEpoch(5), 2000); err != nil {
-		return nil, err
+		return seeds, err
 	}
 	return seeds, nil
 }
@@ -93,7 +95,64 @@ func vc12Gen(seeds []c12h.Seed, rng *vh.Rng, thorough bool) []c12h.Input {
 		ins = append(ins, c12h.RandomMutations("frombytes", s, rng, nrand, 46, nil, nil)...)
 		ins = append(ins, c12h.RandomMutations("get", s, rng, nrand/3, 46, nil, []uint64{s.Nums[0] + 1})...)
 	}
+	ins = append(ins, vc12Spans()...)
 	ins = append(ins, c12h.Junk("frombytes", rng, 200, magic)...)
+	return ins
+}
+
+// vc12SpanFile lays out a well-formed file (magic, start, end, the epoch of start, capacity, then exactly
+// `capacity` values) without going through the writer: start, end and capacity are three independent fields.
+func vc12SpanFile(start, end, capacity uint64) []byte {
+	d := append([]byte(nil), magic...)
+	for _, v := range []uint64{start, end, start / 432000, capacity} {
+		for i := 0; i < 8; i++ {
+			d = append(d, byte(v>>(8*uint(i))))
+		}
+	}
+	for j := uint64(0); j < capacity; j++ {
+		v := uint32(1_600_000_000 + j*3)
+		d = append(d, byte(v), byte(v>>8), byte(v>>16), byte(v>>24))
+	}
+	return d
+}
+
+// vc12Spans: for several slot ranges start..end (end inclusive, as CalcEpochLimits gives it; one with end < start)
+// the files whose value count is 0, 1, end-start-1, end-start, end-start+1 (what the range needs) and end-start+2,
+// each through FromBytes and through Get for the slots start-1, start, start+1, end-1, end, end+1 and the slots of
+// the last value and of the first missing one (start+capacity-1, start+capacity). All of them go into the case file.
+func vc12Spans() []c12h.Input {
+	const maxU = ^uint64(0)
+	ranges := [][2]uint64{
+		{432000 * 3, 432000*3 + 9},
+		{0, 0},
+		{0, 5},
+		{432000*700 + 5, 432000*700 + 44},
+		{432000*2 - 4, 432000*2 - 1}, // the last slots of an epoch: end+1 belongs to the next one
+		{432000 + 90, 432000 + 80},   // end < start
+		{maxU - 5, maxU},             // end+1 wraps around
+	}
+	var ins []c12h.Input
+	for _, r := range ranges {
+		start, end := r[0], r[1]
+		d := end - start
+		seenCap := map[uint64]bool{}
+		for _, capa := range []uint64{0, 1, d - 1, d, d + 1, d + 2} {
+			if capa > 80 || seenCap[capa] { // d-1 below zero, or end < start
+				continue
+			}
+			seenCap[capa] = true
+			data := vc12SpanFile(start, end, capa)
+			ins = append(ins, c12h.Input{Entry: "frombytes", Label: "span", Data: data, Pin: true})
+			seenSlot := map[uint64]bool{}
+			for _, slot := range []uint64{start - 1, start, start + 1, end - 1, end, end + 1, start + capa - 1, start + capa} {
+				if seenSlot[slot] {
+					continue
+				}
+				seenSlot[slot] = true
+				ins = append(ins, c12h.Input{Entry: "get", Label: "span", Data: data, Aux: []uint64{slot}, Pin: true})
+			}
+		}
+	}
 	return ins
 }
 
@@ -140,6 +199,12 @@ func vc12Budget(in *c12h.Input) uint64 { return uint64(16*len(in.Data)) + 256<<1
 
 func vc12Witnesses(seeds []c12h.Seed) map[string]c12h.Input {
 	s := &seeds[0]
+	for i := range seeds { // the probes below query start+5 of a table with at least 10 values
+		if seeds[i].Nums[3] >= 10 && len(seeds[i].Data) < 100000 {
+			s = &seeds[i]
+			break
+		}
+	}
 	mut := func(v uint64) []byte {
 		d := append([]byte(nil), s.Data...)
 		for i := 0; i < 8; i++ {
